@@ -616,10 +616,10 @@ PROPS = {
     "C07": {
         "module": "DnsModel.Theorems.C07",
         "theorems": ["Dns.C07.rename_spec", "Dns.C07.rename_self", "Dns.replaceRaw_spec", "Dns.rename_record"],
-        "families": [{"name": "rename-families", "quick": 0, "thorough": 0, "fixed": True}, {"name": "rename-boundary", "quick": 0, "thorough": 0, "fixed": True}, {"name": "rename", "quick": 1500, "thorough": 75000}],
+        "families": [{"name": "rename-families", "quick": 0, "thorough": 0, "fixed": True}, {"name": "rename-misaligned", "quick": 0, "thorough": 0, "fixed": True}, {"name": "rename-boundary", "quick": 0, "thorough": 0, "fixed": True}, {"name": "rename", "quick": 1500, "thorough": 75000}],
         "oracle": oracle_c07,
         "nontrivial": lambda c, a: a.startswith("ok") or a.startswith("err"),
-        "rule": "accepted packets (4 layouts) x 2 (target, source, mode): sources drawn from the packet's own name suffixes (matches at every depth), case variants, one-character near-misses, unrelated; targets incl. self and names that push the result past 255 bytes",
+        "rule": "accepted packets (4 layouts) x 2 (target, source, mode): sources drawn from the packet's own name suffixes (matches at every depth), case variants, one-character near-misses, unrelated, names whose bytes end with the encoded source off a label boundary (rename-misaligned); targets incl. self and names that push the result past 255 bytes",
         "level": "proof",
         "explanation": "theorems: for every accepted packet (compressed or not), every pair of well-formed pointer-free non-root names and both modes, the model of rename_with_raw_names either returns a packet that satisfies the acceptance policy, keeps the 12 header bytes, and whose question and records are one by one the input's with every name the library understands (owner, NS/CNAME/PTR/MX/SOA data) replaced by its renaming - the name, or in suffix mode a suffix on a label boundary, equal to the source up to case becomes the target; any other name is kept - up to ASCII case, type/class/TTL bytes and all other data incl. OPT identical; or it fails with InvalidName and some renamed name would exceed 255 bytes; renaming a name to itself never fails and keeps every name up to case. replace_raw is characterised exactly on pointer-free names (hit / unchanged / too long); "
                        "correspondence: the real renamer is byte-identical to the model's on generated packets, sources drawn from the packet's own suffixes, near-misses, growth past 255",
@@ -669,7 +669,7 @@ PROPS = {
     },
     "C13": {
         "module": "DnsModel.Theorems.C13", "theorems": ["Dns.C13.synth_total", "Dns.C13.rawNameFromStr_total", "Dns.C13.grammar_iff", "Dns.C13.excluded_is_error", "Dns.C13.wellformed", "Dns.C13.synth_piece", "Dns.C13.insert_accepted"],
-        "families": [{"name": "synth", "quick": 6000, "thorough": 400000}, {"name": "synth-insert", "quick": 1200, "thorough": 40000}],
+        "families": [{"name": "synth-limits", "quick": 0, "thorough": 0, "fixed": True}, {"name": "synth", "quick": 6000, "thorough": 400000}, {"name": "synth-insert", "quick": 1200, "thorough": 40000}],
         "oracle": oracle_c13, "nontrivial": lambda c, a: a.startswith("ok") or " ok b=" in a, "shrink": False,
         "rule": "record texts: 60% grammar-derived over the nine types with boundary values (TTL 0/2^32-1/2^32, 62/63-byte labels, 253/254-byte names, TXT 255/256/3825/3826 bytes and escapes, preference 65535/65536, digests of even/odd/zero length, 14 IPv6 forms), 30% single-token damage, 10% arbitrary bytes; plus insertion of the synthesised record into a valid response; non-trivial = distinct texts that synthesise",
         "level": "proof",
@@ -783,7 +783,7 @@ MANIFEST_TEXT = {
             "note": NOTE, "technique": "Lean 4 proof (piece-list representation of pointer-free objects, refinement of the cursor protocol to a list machine, list lemmas) + exhaustive small-scope correspondence + walk oracle"},
     "C12": {"text": "Lean theorems for all header words and all arguments: set_flags changes only bytes 2-3, keeps opcode and rcode (div/mod by position), sets each of QR AA TC RD RA Z AD CD to the argument's bit and ignores the argument's upper half; set_opcode / set_rcode / set_response / set_tid change only their field; every getter returns the stored field. Real behaviour compared with the model and with the frame condition computed from RFC 1035 field positions, exhaustively over all 65536 flag words in the thorough tier.",
             "note": NOTE, "technique": "exhaustive correspondence over flag words + div/mod oracle"},
-    "C13": {"text": "Lean theorems: the record-text grammar is stated declaratively on the text (Spec/RecordText.lean: B* owner B+ ttl B+ IN B+ TYPE B+ rdata B*, host-name labels, decimal numerals with bounds, dotted quads, IPv6 groups with '::', quoted strings with \\DDD escapes, hex digests) together with the RFC 1035 wire form each text stands for; synth t = Ok rr holds exactly for the pairs of that relation (both directions), so excluded text (missing or surplus fields, out-of-range numbers, malformed addresses, unbalanced quotes, odd or non-hex digests) yields an error; synthesis is total; anything returned is a well-formed class-IN record wherever it is placed; inserting it into the answer/authority/additional section of a parsed packet leaves bytes that satisfy the acceptance policy. Real synthesis compared with the model and with an independent Python synthesiser on grammar-derived, damaged and arbitrary texts, and the result inserted into valid packets.",
+    "C13": {"text": "Lean theorems: the record-text grammar is stated declaratively on the text (Spec/RecordText.lean: B* owner B+ ttl B+ IN B+ TYPE B+ rdata B*, host-name labels, decimal numerals with bounds, dotted quads, IPv6 groups with '::', quoted strings with \\DDD escapes, hex digests) together with the RFC 1035 wire form each text stands for; synth t = Ok rr holds exactly for the pairs of that relation (both directions), so excluded text (missing or surplus fields, out-of-range numbers, malformed addresses, unbalanced quotes, odd or non-hex digests) yields an error; synthesis is total; anything returned is a well-formed class-IN record wherever it is placed; inserting it into the answer/authority/additional section of a parsed packet leaves bytes that satisfy the acceptance policy. Real synthesis compared with the model and with an independent Python synthesiser on grammar-derived, damaged and arbitrary texts, every numeric and length limit of the grammar from both sides (DS digests around the 16-bit data length, TXT, names, labels, TTL, preference), and the result inserted into valid packets.",
             "note": NOTE + " chomp1 combinator semantics read from the vendored source; Ipv6Addr::from_str modelled.", "technique": "Lean 4 proof (token-level iff lemmas for every parser of the recogniser, grammar relation, piece/assembly lemmas for insertion) + model/implementation correspondence + reference synthesiser oracle"},
     "C14": {"text": "Lean theorems for all byte strings and zones: the index-based loop of copy_raw_name_from_str is a left-to-right scan; it accepts exactly dot-separated labels of 1..62 dot-free bytes <= 128 (optional final dot; '.' and '' give the root) whose result fits 253 bytes (so every LDH/underscore name within the limits), returns the length-prefixed encoding of exactly those labels followed by 0 or the zone, rejects an empty label, a leading dot, a dot-free run of 63+, a text or result over 253; the result is a valid pointer-free name (labels 1..63, total <= 255) and the name accessor's text for it is the input without its final dot. Real conversion compared with the model exhaustively over a 7-symbol alphabet up to length 4 (quick) / 6 (thorough) with and without zone, boundary lengths; every accepted name is given to a record and read back.",
             "note": NOTE, "technique": "Lean 4 proof (loop = scan refinement, scan soundness/completeness by induction) + exhaustive small-alphabet correspondence + label oracle"},
